@@ -37,7 +37,7 @@ def swarm_params(rng):
         "big_len": rng.random() < 0.06,
         "dtypes": rng.sample(ALL_DTYPES, rng.choice([1, 2, 3, len(ALL_DTYPES)])),
         "weights": weights,
-        "n_steps": rng.randint(3, 14),
+        "n_steps": rng.randint(3, 14) if rng.random() < 0.95 else rng.randint(15, 30),
         "max_depth": rng.randint(1, 4),
         "empty_bias": rng.choice([0.0, 0.15, 0.3, 0.6]),
         "neg_step_bias": rng.choice([0.1, 0.3, 0.5]),
@@ -154,7 +154,7 @@ class Generator:
         self.rng = rng
         self.P = P or swarm_params(rng)
         self.hazard_free = hazard_free
-        self.max_vars = max_vars
+        self.max_vars = max_vars if self.P["n_steps"] <= 14 else 16
         self.prog = []
         self.sig = []
         self.ex = Execution()
@@ -795,7 +795,7 @@ class Generator:
         if rng.random() < 0.8:
             self.g_chain()
         guard = 0
-        while len(self.prog) < self.P["n_steps"] and guard < 60:
+        while len(self.prog) < self.P["n_steps"] and guard < 60 + 4 * self.P["n_steps"]:
             guard += 1
             if rng.random() < self.P["chain_rate"] and self.room():
                 self.g_chain()
